@@ -202,40 +202,66 @@ def float_tests(body, cfg, bb, tr, vlocal):
 
 
 def check_float_writer(ctx, c, body, who):
-    """serialize_f32/f64 of a JSON behaviour: the three spellings under exactly their tests"""
-    cfg = CFG(body)
-    tr = Tracer(body)
-    vlocal = 2
-    seen = set()
-    fallthrough = 0
-    for bb, t in body.calls():
-        f = t["call"]
-        if not (f.get("trait") or "").startswith(sw.SER):
+    """serialize_f32/f64 of a JSON behaviour as a decision table: the function is evaluated by constant propagation for NaN,
+    +inf, -inf and finite values (local helpers and sibling behaviours interpreted along the path); the call it ends in is
+    the verdict.  Independent of how the tests are arranged (if-chain, early return, helper returning Option<&str>)."""
+    from .. import minterp
+    I = minterp.Interp(ctx.F, c, inline=lambda d_, rid: rid != body.id and rid.startswith("conjure_serde::"), max_depth=3)
+    cases = [("NaN", float("nan"), "NaN"), ("inf", float("inf"), "Infinity"), ("-inf", float("-inf"), "-Infinity"), ("finite", 1.5, None), ("finite", -0.0, None), ("finite", 1e300, None)]
+    bad, rows = [], []
+    for label, v, spelling in cases:
+        try:
+            r = I.run(body, [("sym", "ser")] * (body.argc - 1) + [v])
+        except minterp.Unsupported as e:
+            bad.append(f"{label}: left the analysable fragment ({e})")
             continue
-        if bb not in cfg.reach:
+        if not (isinstance(r, tuple) and r and r[0] == "call"):
+            bad.append(f"{label}: result {r!r}")
             continue
-        pos, neg = float_tests(body, cfg, bb, tr, vlocal)
-        cs = None
-        if f["name"] == "serialize_str":
-            r = dt.resolve_copy(body, t["args"][1])
-            if r[0] == "const" and "str" in r[1]:
-                cs = r[1]["str"]
-        where = body.loc(t["ln"])
-        if cs is not None:
-            exp = SPELL.get(cs)
-            ctx.check(exp is not None and pos == {exp}, "R1.5", where, f"{who}|writes|{cs}",
-                      f"{who}: writes the string {cs!r} under tests {sorted(pos)} (negated: {sorted(neg)}); "
-                      f"Conjure spelling table requires 'NaN' iff is_nan, 'Infinity' iff == +inf, '-Infinity' iff == -inf",
-                      instance=f"{who}: {cs!r} iff {sorted(pos)}")
-            seen.add(cs)
+        name = r[1].split("::")[-1]
+        arg = r[2][-1] if r[2] else None
+        rows.append((label, name, arg if isinstance(arg, str) else "value"))
+        if spelling is not None:
+            if not (name == "serialize_str" and arg == spelling):
+                bad.append(f"{label} is written through {name}({arg!r}); the Conjure spelling is the string {spelling!r}")
         else:
-            fallthrough += 1
-            ctx.check(not pos and neg == {"NaN", "inf", "-inf"}, "R1.5", where, f"{who}|finite-path|{f['name']}",
-                      f"{who}: the ordinary number path ({f['name']}) is reached under positive tests {sorted(pos)} / negated {sorted(neg)}; it must be reached exactly when the value is finite",
-                      instance=f"{who}: finite values -> {f['name']}")
-    ctx.check(seen == set(SPELL), "R1.5", body.loc(), f"{who}|spellings-complete",
-              f"{who}: spellings written {sorted(seen)}, expected {sorted(SPELL)}", instance=f"{who}: all three spellings present")
-    ctx.check(fallthrough >= 1, "R1.5", body.loc(), f"{who}|finite-present", f"{who}: no path for finite values")
+            same = isinstance(arg, float) and (arg == v or (arg != arg and v != v))
+            if not (name in ("serialize_f64", "serialize_f32", "collect_str") and same):
+                bad.append(f"a finite value ({v}) is written through {name}({arg!r}); it must take the ordinary number path with the value itself")
+    ctx.check(not bad, "R1.5", body.loc(), f"{who}|writer-table", f"{who}: " + "; ".join(bad[:3]),
+              instance=f"{who}: NaN/Infinity/-Infinity as strings, finite values as numbers ({sorted(set((l, n) for l, n, _ in rows))})")
+
+
+def spelling_tables(c, body):
+    """[(const item path, sorted [(spelling, float)])] for the constant (str, float) tables a body or its closures reference"""
+    out = []
+    items = set()
+
+    def walk(o):
+        if isinstance(o, dict):
+            cst = o.get("c")
+            if isinstance(cst, dict) and isinstance(cst.get("item"), str):
+                items.add(cst["item"])
+            for v in o.values():
+                walk(v)
+        elif isinstance(o, list):
+            for v in o:
+                walk(v)
+    for x in [body] + c.closures_of(body):
+        walk(x.d.get("blocks"))
+        walk(x.d.get("promoted"))
+    for it in sorted(items):
+        cb = [x for x in c.bodies if x.kind in ("const", "static") and x.path == it]
+        if cb:
+            pairs = []
+            for bb, j, s_ in cb[0].stmts():
+                if s_["r"].get("agg") == "tuple" and len(s_["r"]["ops"]) == 2:
+                    a_, b_ = [(o.get("c") or {}) for o in s_["r"]["ops"]]
+                    if "str" in a_ and "float" in b_:
+                        pairs.append((a_["str"], b_["float"]))
+            if pairs:
+                out.append((it, sorted(pairs)))
+    return out
 
 
 def check_float_reader(ctx, c, body, who, width, rule="R1.5"):
@@ -264,6 +290,14 @@ def check_float_reader(ctx, c, body, who, width, rule="R1.5"):
                       instance=f"{who}: {sorted(pos)} -> {f['name']}({val})")
             seen[val] = pos
     if not seen:
+        # table form: a constant table of (spelling, value) pairs searched for the text
+        tabs = spelling_tables(c, body)
+        vis = [t for x in [body] + c.closures_of(body) for _, t in x.calls() if t["call"].get("name") == f"visit_{width}" and (t["call"].get("trait") or "").startswith(sw.DE)]
+        if len(tabs) == 1 and vis:
+            want = sorted((k, v) for k, v in SPELL.items())
+            ctx.check(tabs[0][1] == want and all(dt.resolve_const(body, t["args"][-1]) is None for t in vis), rule, body.loc(), f"{who}|reads|table",
+                      f"{who}: the spelling table {tabs[0][0].split('::')[-1]} holds {tabs[0][1]}; specification: {want}", instance=f"{who}: table {tabs[0][0].split('::')[-1]} = {want} -> visit_{width}")
+            return True
         return False
     ctx.check(set(seen) == set(SPELL.values()), rule, body.loc(), f"{who}|reader-complete",
               f"{who}: non-finite values produced {sorted(seen)}, expected NaN, inf, -inf", instance=f"{who}: three spellings read")
@@ -346,7 +380,9 @@ def run_spellings(ctx, c, res):
                 ctx.violation("R1.5", f"{bi['file']}:{bi['line']}", f"{role}|serialize_bytes|missing",
                               f"{role} behaviour does not override serialize_bytes (binary must be Base64 text in JSON)")
             else:
-                b = ms["serialize_bytes"]
+                from .. import inline as _inline
+                # a behaviour may delegate to its sibling behaviour's serialize_bytes (same body): look through that call
+                b = _inline.expand(c, ms["serialize_bytes"], depth=1, pred=lambda cb: cb.name == "serialize_bytes" and cb.id.startswith("conjure_serde::json::"))
                 engines = uses_b64_standard(b)
                 disp = [t for _, t in b.calls() if "Base64Display" in t["call"]["def"]]
                 sink = [t for _, t in b.calls() if t["call"].get("name") in ("collect_str", "serialize_str")]
@@ -461,7 +497,7 @@ def run_spellings(ctx, c, res):
                 total += 1
                 ctx.check(it == B64_STD, "R1.5", b.loc(), f"{b.id}|engine|{it}", f"{b.id} references Base64 engine {it}; only the padded standard alphabet may be used",
                           instance=f"{b.id}: {it}", nontrivial=False)
-    ctx.floor("R1.5", "base64 engine references", total, 6)
+    ctx.floor("R1.5", "base64 engine references", total, 3)
 
 
 # ---------------------------------------------------------------------------------- R1.6
@@ -470,9 +506,12 @@ def run_end(ctx, c):
     entry_adts = set()
     for i in sw.entry_impls(c, sw.DE + "Deserializer"):
         entry_adts.add(ty_adt(i["self_ty"]))
+    from .. import inline
     for b in c.bodies:
         if b.kind != "fn" or b.d.get("vis") != "pub":
             continue
+        # the deserialize-then-end tail may live in a private helper shared by the entry points
+        b = inline.expand(c, b, depth=2, pred=lambda cb: cb.d.get("vis") != "pub")
         des = [(bb, t) for bb, t in b.calls() if t["call"]["def"] == sw.DE + "Deserialize::deserialize"
                and ty_adt(t["call"]["substs"][1]) in entry_adts]
         if not des:
